@@ -710,3 +710,48 @@ m('C05','benign-store-reread-tail',PC,
 m('C05','benign-miss-test',RW,
   '\t\t\tif bytes == 0 {\n\t\t\t\tcontinue\n\t\t\t}','\t\t\tif bytes < 1 {\n\t\t\t\tcontinue\n\t\t\t}',
   '','','equivalent miss test',benign=True)
+# ---------------- C03 ----------------
+m('C03','nack-skips-reverse',R,
+  '\t\t\tl := track.remote.GetPacket(seqno, buf, true)','\t\t\tl := track.remote.GetPacket(seqno-seqno+s, buf, true)',
+  'R3.1','the packet fetched is the one Reverse named','the NACKed outgoing number is used as a source number',quick=True)
+m('C03','nack-ignores-reverse-failure',R,
+  '\t\t\tok, seqno, _ := track.packetmap.Reverse(s)\n\t\t\tif !ok {\n\t\t\t\treturn true\n\t\t\t}','\t\t\t_, seqno, _ := track.packetmap.Reverse(s)',
+  'R3.1','nothing is fetched when Reverse fails','never-sent numbers answered with packet 0')
+m('C03','nack-ignores-miss',R,
+  '\t\t\tl := track.remote.GetPacket(seqno, buf, true)\n\t\t\tif l == 0 {\n\t\t\t\treturn true\n\t\t\t}','\t\t\tl := track.remote.GetPacket(seqno, buf, true)',
+  'R3.1','UpTrack.GetPacket in rtpconn.gotNACK use','a cache miss resends the previous contents of the buffer')
+m('C03','nack-whole-buffer',R,
+  '\t\t\t_, err := track.Write(buf[:l])','\t\t\t_, err := track.Write(buf)',
+  'R3.1','UpTrack.GetPacket in rtpconn.gotNACK use','retransmission padded to 1504 bytes')
+m('C03','nack-reverse-next',R,
+  '\t\t\tok, seqno, _ := track.packetmap.Reverse(s)','\t\t\tok, seqno, _ := track.packetmap.Reverse(s + 1)',
+  'R3.1','Reverse is asked about the NACKed number','the following packet is retransmitted')
+m('C03','reverse-wrong-sign',PM,
+  '\t\t\t\t\tseqno - m.entries[i].delta,','\t\t\t\t\tseqno + m.entries[i].delta,',
+  'R3.2','Reverse: successful returns','NACKed numbers resolved to the wrong source packet',quick=True)
+m('C03','reverse-domain-intervals',PM,
+  '\t\tf := m.entries[i].first + m.entries[i].delta','\t\tf := m.entries[i].first',
+  'R3.2','Reverse: the interval delta is applied only to members','Reverse searches source intervals with a target number')
+m('C03','reverse-upper-inclusive',PM,
+  '\t\t\tif compare(seqno, f+m.entries[i].count) < 0 {\n\t\t\t\treturn true,\n\t\t\t\t\tseqno - m.entries[i].delta,',
+  '\t\t\tif compare(seqno, f+m.entries[i].count) <= 0 {\n\t\t\t\treturn true,\n\t\t\t\t\tseqno - m.entries[i].delta,',
+  'R3.2','Reverse: the interval delta is applied only to members','the number after an interval resolves to a withheld packet')
+m('C03','map-records-other',PM,
+  '\t\taddMapping(m, seqno, m.delta, m.pidDelta)','\t\taddMapping(m, seqno, m.delta+1, m.pidDelta)',
+  'R3.2','Map records the mapping it returns','retransmissions map to another number than the original')
+m('C03','drop-init-first',PM,
+  '\t\t\t\tfirst:    seqno - 8192,','\t\t\t\tfirst:    seqno - 8191,',
+  'R3.2','the first Drop creates the identity interval','the withheld packet is inside the identity interval: it can be retransmitted')
+m('C03','getpacket-other-seqno',R,
+  '\tn := track.cache.Get(seqno, result)\n\tif n > 0 || !nack {','\tn := track.cache.Get(seqno+1, result)\n\tif n > 0 || !nack {',
+  'R3.3','GetPacket looks its seqno up','the following packet is returned')
+m('C03','getpacket-full-length',R,
+  '\tn := track.cache.Get(seqno, result)\n\tif n > 0 || !nack {\n\t\treturn n\n\t}','\tn := track.cache.Get(seqno, result)\n\tif n > 0 || !nack {\n\t\treturn uint16(len(result))\n\t}',
+  'R3.3','GetPacket returns the lookup','buffer length reported instead of packet length')
+m('C03','get-no-seqno-check',PC,
+  '\t\tif entries[i].lengthAndMarker == 0 || entries[i].seqno != seqno {','\t\tif entries[i].lengthAndMarker == 0 {',
+  'R3.4','copy out of entries[i]','any cached packet answers any NACK')
+m('C03','benign-nack-rename',R,
+  '\t\t\tl := track.remote.GetPacket(seqno, buf, true)\n\t\t\tif l == 0 {\n\t\t\t\treturn true\n\t\t\t}\n\t\t\t_, err := track.Write(buf[:l])',
+  '\t\t\tlength := track.remote.GetPacket(seqno, buf, true)\n\t\t\tif length < 1 {\n\t\t\t\treturn true\n\t\t\t}\n\t\t\t_, err := track.Write(buf[:length])',
+  '','','renamed count, equivalent miss test',benign=True)
